@@ -87,6 +87,23 @@ func init() {
 			return true
 		})
 		o.p("def joinOrder : String := %s\n", leanStr(joined))
+		// every worker gets its own copy of its chunk (no shared backing array between workers)
+		var chunkStmts []string
+		for _, s := range loop.Body.List {
+			t := oneLine(str(s))
+			if strings.Contains(t, "chunk") {
+				chunkStmts = append(chunkStmts, t)
+			}
+		}
+		o.p("def chunkStmts : List String := %s\n", leanList(chunkStmts))
+		// termination test of the read loop uses the number of *source* entities
+		var countDefs []string
+		for _, pl := range []string{"IncrementalPipeline", "FullSyncPipeline"} {
+			f := mustFunc("internal/jobs/pipeline.go", pl, "sync")
+			countDefs = append(countDefs, assignRHS(f, "incomingEntityCount")...)
+			countDefs = append(countDefs, ifCondsWhoseBodyContains(f, "keepReading = false")...)
+		}
+		o.p("def readLoopStop : List String := %s\n", leanList(countDefs))
 		o.write(outDir, "Partition")
 	}
 }
